@@ -3,6 +3,7 @@ package vocab
 import (
 	"fmt"
 	"reflect"
+	"strings"
 	"time"
 
 	ap "github.com/go-ap/activitypub"
@@ -81,6 +82,11 @@ func itemShapesBase(c *Counter, mk func(n string, it ap.Item) Shaped) []Shaped {
 		}()),
 		mk("list3:link", ap.ItemCollection{c.ID("i"), &ap.Link{ID: c.ID("l"), Type: ap.LinkType, Href: c.ID("h")}, &ap.Actor{ID: c.ID("p"), Type: ap.GroupType}}),
 		mk("list-one-of-each-type", oneOfEach(c)),
+		// strings of a kilobyte and more (a signed URL, a long query) in the plain string properties, with more strings behind them:
+		// writers that reuse scratch space treat long and short strings differently
+		mk("iri-long", ap.IRI(string(c.ID("i"))+"?blob="+strings.Repeat("iVBORw0KGgo-_A..", 80))),
+		mk("obj:long-strings", &ap.Object{ID: ap.IRI(string(c.ID("o")) + "?sig=" + strings.Repeat("0123456789abcdef", 70)), Type: ap.ImageType, MediaType: ap.MimeType("image/png; note=" + strings.Repeat("x", 1100)),
+			URL: ap.IRI(string(c.ID("img")) + "/" + strings.Repeat("QUJD", 300)), Name: ap.DefaultNaturalLanguageValue("txt-after-long")}),
 	}
 }
 
@@ -378,6 +384,40 @@ func EverythingN(st reflect.Type, gob bool, n int) ap.Item {
 		p.Elem().Field(f.Index).Set(keep[(n*7+f.Index)%len(keep)].V)
 	}
 	return p.Interface().(ap.Item)
+}
+
+// OneProperty builds, for every field of st, the value that has its id, its type and that one property only (the n-th admissible
+// shape of the field; the shapes that say nothing are skipped).
+func OneProperty(st reflect.Type, gob bool, n int) (out []Cell) {
+	c := &Counter{}
+	for _, f := range Fields(st) {
+		if f.Kind == KID || f.Kind == KType {
+			continue
+		}
+		shapes := ShapesFor(f, c, gob)
+		if f.Kind == KItems && len(shapes) > 1 {
+			shapes = shapes[1:]
+		}
+		if f.Kind == KNLV && len(shapes) > 2 {
+			shapes = shapes[2:]
+		}
+		var keep []Shaped
+		for _, sh := range shapes {
+			if sh.Name != "empty-list" && sh.Name != "endpoints-empty" {
+				keep = append(keep, sh)
+			}
+		}
+		if len(keep) == 0 {
+			continue
+		}
+		sh := keep[(n*5+f.Index)%len(keep)]
+		p := reflect.New(st)
+		p.Elem().FieldByName("ID").SetString(string(c.ID("top")))
+		p.Elem().FieldByName("Type").SetString(string(DefaultType[st.Name()]))
+		p.Elem().Field(f.Index).Set(sh.V)
+		out = append(out, Cell{st.Name() + "." + f.Name + " " + sh.Name, st, f, sh.Name, p.Interface().(ap.Item)})
+	}
+	return
 }
 
 // AnonymousCells enumerates, for every field of Object x its first shapes, an embedded object that has neither id nor type
